@@ -19,6 +19,7 @@ from __future__ import annotations
 import ast
 
 from ..dispatch import Cond, Slicer, flat
+from ..flow import effective_body
 from ..guards import BENIGN_VERBS, REQUIRED, UNREACHABLE_IN_BENIGN, covers, parse_guards
 from ..model import model_of
 from ..siblings import get_siblings
@@ -87,7 +88,7 @@ def run(chk, rules=None, as_prop=None):
         )  # fmt: skip
 
     # ---- G3
-    first = next((s for s in rs.body if not (isinstance(s, ast.Expr) and isinstance(s.value, ast.Constant))), None)
+    first = next(iter(effective_body(rs)), None)
     g3 = (
         isinstance(first, ast.If)
         and "backend_name" in norm(first.test)
